@@ -9,6 +9,7 @@
 EXTENDS PPRefTherm, TLC, Json
 
 CONSTANTS ThermalOn, MaxNodes, MaxChords, Demands, NVals, ZetaVals, SecVals, HVals, ChordFlows, Kinds, EmitOn, MaxSteps,
+          FmVals,                     \* friction models (pipeflow option) the scenario is designed for
           FdVals, TeVals, DtVals      \* thermal attributes: decay-factor code, ambient index, heat-exchanger temperature drop
 
 VARIABLES s, steps
@@ -18,9 +19,9 @@ Root(h) == [par |-> 0, kind |-> "", rev |-> FALSE, N |-> 0, zeta |-> 0, sec |-> 
 Tables == [hm |-> [i \in {1, 2, 3} |-> IF i = 1 THEN 0 ELSE IF i = 2 THEN 10 ELSE -20],
            pamb |-> [i \in {1, 2, 3} |-> IF i = 1 THEN 1013250 ELSE IF i = 2 THEN 1012049 ELSE 1015655]]
 
-Init == \E h \in HVals, pp \in {<<10000000>>, <<9000000, 11000000>>} :
+Init == \E h \in HVals, pp \in {<<10000000>>, <<9000000, 11000000>>}, fm \in FmVals :
           /\ s = [p0 |-> (IF Len(pp) = 1 THEN pp[1] ELSE (pp[1] + pp[2]) \div 2), p0s |-> pp,
-                  nodes |-> <<Root(h)>>, chords |-> <<>>, hm |-> Tables.hm, pamb |-> Tables.pamb, t0 |-> 360]
+                  nodes |-> <<Root(h)>>, chords |-> <<>>, hm |-> Tables.hm, pamb |-> Tables.pamb, t0 |-> 360, fm |-> fm]
           /\ steps = 0
 
 AddNode ==
@@ -79,6 +80,14 @@ InvIsothermal == (ThermalOn /\ Len(s.nodes) >= 2 /\ ThermallyDetermined(s)
                   /\ (\A k \in Nodes(s) : s.nodes[k].fd = 1 /\ s.nodes[k].dT = 0) /\ (\A i \in DOMAIN s.chords : s.chords[i].fd = 1))
                  => \A k \in Nodes(s) : REq(T(s, k), R(s.t0))
 InvShift == LET t == [s EXCEPT !.p0 = @ + 500000] IN \A k \in Nodes(s) : P(t, k) = P(s, k) + 500000
+(* the friction model only matters through the laminar share of pipes: a scenario without pipes has the same prediction under all models, *)
+(* and with pipes the nikuradse pressures are never above the others (its lambda is larger) along the flow direction                      *)
+InvFrictionModel ==
+    LET nk == [s EXCEPT !.fm = "nikuradse"]  cb == [s EXCEPT !.fm = "colebrook"]  sj == [s EXCEPT !.fm = "swamee-jain"] IN
+    /\ \A k \in Nodes(s) : P(cb, k) = P(sj, k)
+    /\ ((\A k \in Nodes(s) \ {1} : s.nodes[k].kind # "pipe") => \A k \in Nodes(s) : P(nk, k) = P(cb, k))
+    /\ \A k \in Nodes(s) \ {1} : LET n == s.nodes[k]  m == Flow(s, k) IN
+          n.kind = "pipe" => DropF(1, "pipe", n.N, n.zeta, m) - DropF(0, "pipe", n.N, n.zeta, m) = (n.N * m) \div 2
 
 Emit == (EmitOn /\ Admissible(s)) =>
     PrintT(ToJson([vp |-> "SCEN", s |-> WithZetas(s),
